@@ -235,6 +235,47 @@ class Crate:
         self.consts = {c["path"]: c for c in raw["consts"]}
         self.impls = raw["impls"]
         self.traits = {t["path"]: t for t in raw["traits"]}
+        self._fold_const_arrays()
+
+    def _fold_const_arrays(self):
+        """`const TABLE: [&str; 2] = ["a", "b"]; .. TABLE[0] ..`: the driver evaluates scalar and string consts only; an array const whose
+        initialiser is a literal array gets its value here, and `TABLE[<literal index>]` is folded to the element (so that a literal moved
+        into a named table reads like the literal)."""
+        from lib import hir as H
+        arrays = {}
+        for c in self.raw["consts"]:
+            if c.get("value") is not None:
+                continue
+            b = self.by_key.get(c.get("key"))
+            if b is None or not isinstance(b.get("body"), dict):
+                continue
+            e = H.peel(b["body"])
+            while e.get("k") == "block" and not e.get("stmts") and "tail" in e:
+                e = H.peel(e["tail"])
+            if e.get("k") != "array":
+                continue
+            vals = [H.const_value(x) for x in e["es"]]
+            if vals and all(isinstance(v, (int, str, bool)) for v in vals):
+                c["value"] = vals
+                arrays[c["key"]] = vals
+        if not arrays:
+            return
+        for b in self.bodies:
+            if not isinstance(b.get("body"), dict):
+                continue
+            for n in H.walk(b["body"]):
+                if n.get("k") == "index":
+                    base = H.peel(n["e"])
+                    i = H.const_value(n["i"])
+                    if base.get("k") == "path" and base["res"].get("r") == "def" and base["res"].get("key") in arrays and isinstance(i, int) \
+                            and not isinstance(i, bool) and 0 <= i < len(arrays[base["res"]["key"]]):
+                        v = arrays[base["res"]["key"]][i]
+                        keep = {k: n[k] for k in ("ty", "tya", "sp") if k in n}
+                        n.clear()
+                        n.update(keep)
+                        n["k"] = "lit"
+                        n["lit"] = {"t": "str" if isinstance(v, str) else ("bool" if isinstance(v, bool) else "int"), "v": v}
+                        n["folded_from"] = base["res"].get("path")
 
     def body(self, path):
         """Exactly one body with this pretty path, else None."""
